@@ -55,18 +55,44 @@ Proof. intros H. unfold hostname. rewrite (hostinfo_after_at _ _ H). reflexivity
 Lemma port_of_after_at a hp : nochar 64 hp = true -> port_of (a ++ 64 :: hp) = port_of hp.
 Proof. intros H. unfold port_of. rewrite (hostinfo_after_at _ _ H). reflexivity. Qed.
 
-Lemma hostinfo_plain host : nochar 64 host = true -> nochar 58 host = true -> hostinfo host = (host, None).
+Lemma hostinfo_plain host :
+  nochar 64 host = true -> nochar 58 host = true -> nochar 91 host = true -> hostinfo host = (host, None).
 Proof.
-  intros H1 H2. unfold hostinfo. rewrite (rpartition_at_none _ _ H1), (partition_at_none _ _ H2). reflexivity.
+  intros H1 H2 H3. unfold hostinfo.
+  rewrite (rpartition_at_none _ _ H1), (partition_at_none _ _ H3), (partition_at_none _ _ H2). reflexivity.
 Qed.
 
 Lemma hostinfo_port host ptxt :
   nochar 64 host = true -> nochar 58 host = true -> nochar 64 ptxt = true ->
+  nochar 91 host = true -> nochar 91 ptxt = true ->
   hostinfo (host ++ 58 :: ptxt) = (host, if is_nil ptxt then None else Some ptxt).
 Proof.
-  intros H1 H2 H3. unfold hostinfo. rewrite rpartition_at_none.
-  - rewrite (partition_at_app _ _ _ H2). reflexivity.
+  intros H1 H2 H3 H4 H5. unfold hostinfo. rewrite rpartition_at_none.
+  - rewrite partition_at_none.
+    + rewrite (partition_at_app _ _ _ H2). reflexivity.
+    + rewrite nochar_app, H4, nochar_cons, H5. reflexivity.
   - rewrite nochar_app, H1, nochar_cons, H3. reflexivity.
+Qed.
+
+Lemma partition_at_head d post : partition_at d (d :: post) = Some ([], post).
+Proof. cbn [partition_at]. rewrite N.eqb_refl. reflexivity. Qed.
+
+(* "[h]" and "[h]:port" *)
+Lemma hostinfo_bracket h :
+  nochar 64 h = true -> nochar 93 h = true -> hostinfo (91 :: h ++ [93]) = (h, None).
+Proof.
+  intros H1 H2. unfold hostinfo. rewrite rpartition_at_none.
+  - rewrite partition_at_head, (partition_at_app _ _ _ H2). reflexivity.
+  - rewrite nochar_cons, nochar_app, H1. reflexivity.
+Qed.
+
+Lemma hostinfo_bracket_port h ptxt :
+  nochar 64 h = true -> nochar 93 h = true -> nochar 64 ptxt = true ->
+  hostinfo (91 :: h ++ 93 :: 58 :: ptxt) = (h, if is_nil ptxt then None else Some ptxt).
+Proof.
+  intros H1 H2 H3. unfold hostinfo. rewrite rpartition_at_none.
+  - rewrite partition_at_head, (partition_at_app _ _ _ H2), partition_at_head. reflexivity.
+  - rewrite nochar_cons, nochar_app, H1, nochar_cons, nochar_cons, H3. reflexivity.
 Qed.
 
 Lemma norm_host_nonempty c h : norm_host (c :: h) <> [].
@@ -89,6 +115,28 @@ Qed.
 
 (* ------------------------------------------------------------------ character classes of the pieces *)
 Lemma host_char_netloc c : host_char c = true -> netloc_char c = true.
+Proof. chars2. lia. Qed.
+Lemma host_char_not_open c : host_char c = true -> negb (c =? 91) = true.
+Proof. chars2. lia. Qed.
+Lemma netloc_char_not_open c : netloc_char c = true -> negb (c =? 91) = true.
+Proof. chars2. lia. Qed.
+Lemma netloc_char_not_close c : netloc_char c = true -> negb (c =? 93) = true.
+Proof. chars2. lia. Qed.
+Lemma ip6_char_netloc0 c : ip6_char c = true -> netloc_char0 c = true.
+Proof. chars2. lia. Qed.
+Lemma ip6_char_not_at c : ip6_char c = true -> negb (c =? 64) = true.
+Proof. chars2. lia. Qed.
+Lemma ip6_char_not_open c : ip6_char c = true -> negb (c =? 91) = true.
+Proof. chars2. lia. Qed.
+Lemma ip6_char_not_close c : ip6_char c = true -> negb (c =? 93) = true.
+Proof. chars2. lia. Qed.
+Lemma ip6_char_not_v c : ip6_char c = true -> (c =? 118) = false.
+Proof. chars2. lia. Qed.
+Lemma ip6_char_not_slash c : ip6_char c = true -> negb (c =? 47) = true.
+Proof. chars2. lia. Qed.
+Lemma ip6_char_not_pct c : ip6_char c = true -> negb (c =? 37) = true.
+Proof. chars2. lia. Qed.
+Lemma digitm_not_open c : is_digit c || (c =? 45) = true -> negb (c =? 91) = true.
 Proof. chars2. lia. Qed.
 Lemma host_char_not_at c : host_char c = true -> negb (c =? 64) = true.
 Proof. chars2. lia. Qed.
